@@ -125,7 +125,8 @@ func (f *Fam) Items(level int) []*Item {
 // literal forms, close tags, halt compiler, nested string modes).
 func Specials() []string {
 	heads := []string{"<?php ", "<?php\n", "<?php\r\n", "<?php\t", "<? ", "<?= $x; ", "<?=$x?>", "#!/usr/bin/php\n<?php ", "#!x\n", "#!x\n<html>\n<?php ",
-		"<html>\n<?php ", "<html><?php ", "\n<?php ", "<?PHP ", "<?Php\n", "<<?php ", "x<?php ", "#!x\r\n<?php ", "\xef\xbb\xbf<?php "}
+		"<html>\n<?php ", "<html><?php ", "\n<?php ", "<?PHP ", "<?Php\n", "<<?php ", "x<?php ", "#!x\r\n<?php ", "\xef\xbb\xbf<?php ",
+		"#!a\n#!b\n<?php ", "#!a\n#!b\n", "#!a\n\n#!b\n<?php ", " #!a\n<?php "}
 	bodies := []string{"$a;", "echo 1;", "if ($a): ?>\nx\n<?php endif;", "foo() ?>", "function f() { ?>x<?php }", "$a; /*c*/ ?>", "$a ; ?>", "$a;\n?>",
 		"$a;//c\n?>", "$a;//c ?>", "$a //c ?> x <?php ;", "$a #c\r;", "/** d */ function f() {}", "/**/ $a;", "switch ($a) { case 1: ?>x<?php break; }",
 		"$a ?>\r\nx<?php ;", "$a ?>\rx<?php ;", "$a; ?>\r\n<b>\r\n<?php ;", "if ($a): ?>\r\nx\r\n<?php endif;", "$a ?>\n\nx<?php ;", "$a ?>\r\n\r\nx<?php ;"}
